@@ -340,18 +340,28 @@ func c32SweepCase(r *verifkit.R, phase string, ci int, rng *verifkit.Rand) {
 		if w.broken {
 			return
 		}
-		// drain: every swept connection's read loop has reported (handleDisconnect returned)
-		if !w.wait("every swept connection to have been reported", func() bool {
+		// drain: the read loops of the swept connections report (handleDisconnect returned). A read
+		// loop that sees the connection done before its next read returns without reporting, so
+		// this wait is bounded and its outcome is only counted (synchronisation, not a verdict; a
+		// late stale report would still be judged inside the callback).
+		drainUntil := time.Now().Add(2 * time.Second)
+		for {
 			w.mu.Lock()
-			defer w.mu.Unlock()
+			missing := 0
 			for _, c := range swept {
 				if w.exits[c] == 0 {
-					return false
+					missing++
 				}
 			}
-			return true
-		}) {
-			return
+			w.mu.Unlock()
+			if missing == 0 {
+				break
+			}
+			if time.Now().After(drainUntil) {
+				r.Add("swept_connections_never_reported(info)", missing)
+				break
+			}
+			time.Sleep(100 * time.Microsecond)
 		}
 		r.Add("swept_connections_reported", len(swept))
 		materialised = true
